@@ -116,3 +116,17 @@ _m("C06",
    "under-supplied reactions.  Non-trivial: >= 3 events on a network with a conservation law or a non-mass-action rate "
    "in safe mode, or an under-supplied safe-table case.",
    _COMMON + ["delayed reactants may legitimately drive a count negative at delivery: non-negativity is not asserted then"])
+
+_m("C04",
+   "Hypothesis builds (L) linear networks (conversions, degradations, zero-order inflow, catalytic production), (N) "
+   "nonlinear bounded networks (mass action up to order 3 with repeats, Hill families with integer exponents, rational "
+   "general rates, inflow) and (T) explicitly time-dependent smooth rates; 1..4 species, 1..5 reactions, optional "
+   "delayed products; rate constants in [0.05,5], initial values in [0,20]; uniform and non-uniform grids from 0 with "
+   "2..40 points and horizon <= 5.  Oracle: matrix exponential of the augmented linear system (L) or DOP853 at rtol "
+   "1e-11 on the reference right-hand side (N,T; discarded when its 1e-9 and 1e-11 runs disagree by > 1e-7).  The "
+   "first row must equal the initial condition exactly, the time axis the request, every other row must agree within "
+   "2e-5 (1 + max|x_ref|).  Both py_simulate_model and DeterministicSimulator.py_simulate are driven.  Non-trivial: "
+   ">= 2 reactions and (nonlinear, time-dependent, non-uniform grid or delayed part).",
+   _COMMON + ["stiff or exploding systems are excluded by construction",
+              "Hill exponents are integers here: with a fractional exponent the rate is undefined as soon as the "
+              "integrator overshoots below zero, which the property excludes as not well-posed"])
